@@ -9,7 +9,13 @@ static int inits, frees;
 void vmerge_func(void *clos, const uint8_t *key, size_t len_key, const uint8_t *val0, size_t len_val0,
 		 const uint8_t *val1, size_t len_val1, uint8_t **merged_val, size_t *len_merged_val)
 {
-	(void)clos; (void)key; (void)len_key;
+	(void)key; (void)len_key;
+	if (clos != (void *)&inits) {
+		/* the state from vmerge_init_func did not reach the merge function: make the damage visible in the output */
+		static const uint8_t lost[] = "CLOSURE-FROM-INIT-FUNC-LOST";
+		*merged_val = malloc(sizeof lost); memcpy(*merged_val, lost, sizeof lost); *len_merged_val = sizeof lost;
+		return;
+	}
 	ms_union(val0, len_val0, val1, len_val1, merged_val, len_merged_val);
 }
 void *vmerge_init_func(void) { inits++; return &inits; }
